@@ -34,6 +34,7 @@ import AutomataVerif.Proofs.CtorKMPDfa
 import AutomataVerif.Proofs.CtorACDfa
 import AutomataVerif.Proofs.CtorFLMinimal
 import AutomataVerif.Proofs.Minimal
+import AutomataVerif.Proofs.CtorErrors
 
 namespace AV.Props.C15
 open AV AV.Ctor
@@ -153,96 +154,224 @@ example : Builds (countMod ['a', 'b'] 3 (some [1, 2]) (some ['a'])) ['a', 'b']
 
 /-! ## of_length -/
 
-/-- `of_length(Σ, min_length, max_length, symbols_to_count)` with `min_length ≥ 0`: a valid
-complete DFA accepting exactly the words over `Σ` whose number of counted symbols lies between
-`min_length` and `max_length` (no upper bound for `None`); all parameter values, degenerate ones
-included (`min > max`, nothing counted). -/
+/-- `of_length(Σ, min_length, max_length, symbols_to_count)`, general form: a valid complete DFA
+accepting exactly the words over `Σ` whose number of counted symbols lies between `min_length`
+and `max_length` (no upper bound for `None`) — all parameter values, degenerate ones included
+(`min > max`, `max < 0`, nothing counted, negative `min_length` without a maximum), with the one
+exception stated by `C15_of_length_negative_min` below (negative `min_length` together with a
+non-negative `max_length` and a counted symbol in `Σ`: the code raises). -/
+theorem C15_of_length_general (syms : List α) (minLen : Int) (maxLen : Option Int)
+    (count : Option (List α))
+    (h : 0 ≤ minLen ∨ maxLen = none ∨ (∃ mx, maxLen = some mx ∧ mx < 0) ∨
+      (∀ a ∈ syms, a ∉ count.getD syms)) :
+    Builds (ofLength syms minLen maxLen count) syms
+      (fun w => minLen ≤ countIn (count.getD syms) w ∧
+        ∀ mx, maxLen = some mx → (countIn (count.getD syms) w : Int) ≤ mx) := by
+  cases hdis : isDisjoint syms (count.getD syms) with
+  | true =>
+    -- first early return: nothing counted, every word has counted length 0
+    have hd := (isDisjoint_iff syms _).mp hdis
+    refine builds_of syms (ofLength_eq_disjoint syms minLen maxLen count hdis) (loopDFA_wf 0 syms _) rfl
+      (fun w => ?_)
+    rw [loopDFA_accepts, zeroInRange_iff]
+    refine and_congr_right fun hw => ?_
+    rw [countIn_eq_zero_of_disjoint hd hw]
+    simp
+  | false =>
+    cases hemp : emptyRange minLen maxLen with
+    | true =>
+      -- second early return: empty range of lengths
+      obtain ⟨mx, rfl, hmx⟩ := (emptyRange_iff _ _).mp hemp
+      refine builds_of syms (ofLength_eq_emptyRange syms minLen _ count hdis hemp) (loopDFA_wf 0 syms false)
+        rfl (fun w => ?_)
+      rw [loopDFA_accepts]
+      simp only [Bool.false_eq_true, and_false, false_iff, not_and]
+      intro _ h1 h2
+      have := h2 mx rfl
+      omega
+    | false =>
+      have hne : ¬ ∃ mx, maxLen = some mx ∧ (mx < minLen ∨ mx < 0) := by
+        rw [← emptyRange_iff, hemp]; simp
+      obtain ⟨c, hc, hcc⟩ := (isDisjoint_eq_false_iff syms _).mp hdis
+      cases maxLen with
+      | none =>
+        have hfin : ∀ r ∈ [nat minLen.toNat], 0 ≤ r ∧ r ≤ (minLen.toNat : Int) := by
+          intro r hr
+          simp only [List.mem_singleton] at hr
+          rw [hr, nat_cast]; omega
+        refine builds_of syms (ofLength_eq syms minLen none count hdis hemp) (ofLengthDFA_wf syms _ _ _ hfin) rfl
+          (fun w => ?_)
+        rw [ofLengthDFA_accepts syms _ _ _ hfin]
+        simp only [List.mem_singleton, nat_inj, reduceCtorEq, false_implies, implies_true, and_true]
+        constructor
+        · rintro ⟨h1, h2⟩; exact ⟨h1, by omega⟩
+        · rintro ⟨h1, h2⟩; exact ⟨h1, by omega⟩
+      | some mx =>
+        have hmx : minLen ≤ mx ∧ 0 ≤ mx := by
+          constructor
+          · exact Int.not_lt.mp fun hlt => hne ⟨mx, rfl, Or.inl hlt⟩
+          · exact Int.not_lt.mp fun hlt => hne ⟨mx, rfl, Or.inr hlt⟩
+        have hmin : 0 ≤ minLen := by
+          rcases h with h | h | ⟨m, hm, hm0⟩ | h
+          · exact h
+          · cases h
+          · cases hm; omega
+          · exact absurd hcc (h c hc)
+        have hfin : ∀ r ∈ (List.range (mx + 1 - minLen).toNat).map (fun j => minLen + nat j),
+            0 ≤ r ∧ r ≤ ((mx + 1).toNat : Int) := by
+          intro r hr
+          simp only [List.mem_map, List.mem_range] at hr
+          obtain ⟨j, hj, rfl⟩ := hr
+          rw [nat_cast]; omega
+        refine builds_of syms (ofLength_eq syms minLen (some mx) count hdis hemp)
+          (ofLengthDFA_wf syms _ _ _ hfin) rfl (fun w => ?_)
+        rw [ofLengthDFA_accepts syms _ _ _ hfin]
+        simp only [List.mem_map, List.mem_range, Option.some.injEq, forall_eq']
+        generalize countIn (count.getD syms) w = c
+        constructor
+        · rintro ⟨h1, j, hj, e⟩
+          rw [nat_cast, nat_cast] at e
+          exact ⟨h1, by omega, by omega⟩
+        · rintro ⟨h1, h2, h3⟩
+          refine ⟨h1, (c - minLen).toNat, by omega, ?_⟩
+          rw [nat_cast, nat_cast]; omega
+
+/-- `of_length` with `min_length ≥ 0` (lengths are naturals): all parameter values, degenerate
+ones included (`min > max`, nothing counted). -/
 theorem C15_of_length (syms : List α) (minLen : Int) (hmin : 0 ≤ minLen) (maxLen : Option Int)
     (count : Option (List α)) :
     Builds (ofLength syms minLen maxLen count) syms
       (fun w => minLen ≤ countIn (count.getD syms) w ∧
-        ∀ mx, maxLen = some mx → (countIn (count.getD syms) w : Int) ≤ mx) := by
-  cases maxLen with
-  | none =>
-    have hfin : ∀ r ∈ [nat minLen.toNat], 0 ≤ r ∧ r ≤ (minLen.toNat : Int) := by
-      intro r hr
-      simp only [List.mem_singleton] at hr
-      rw [hr, nat_cast]; omega
-    refine builds_of syms (ofLength_eq syms minLen none count) (ofLengthDFA_wf syms _ _ _ hfin) rfl
-      (fun w => ?_)
-    rw [ofLengthDFA_accepts syms _ _ _ hfin]
-    simp only [List.mem_singleton, nat_inj, reduceCtorEq, false_implies, implies_true, and_true]
-    constructor
-    · rintro ⟨h1, h2⟩; exact ⟨h1, by omega⟩
-    · rintro ⟨h1, h2⟩; exact ⟨h1, by omega⟩
-  | some mx =>
-    have hfin : ∀ r ∈ (List.range (mx + 1 - minLen).toNat).map (fun j => minLen + nat j),
-        0 ≤ r ∧ r ≤ ((mx + 1).toNat : Int) := by
-      intro r hr
-      simp only [List.mem_map, List.mem_range] at hr
-      obtain ⟨j, hj, rfl⟩ := hr
-      rw [nat_cast]; omega
-    refine builds_of syms (ofLength_eq syms minLen (some mx) count) (ofLengthDFA_wf syms _ _ _ hfin) rfl
-      (fun w => ?_)
-    rw [ofLengthDFA_accepts syms _ _ _ hfin]
-    simp only [List.mem_map, List.mem_range, Option.some.injEq, forall_eq']
-    generalize countIn (count.getD syms) w = c
-    constructor
-    · rintro ⟨h1, j, hj, e⟩
-      rw [nat_cast, nat_cast] at e
-      exact ⟨h1, by omega, by omega⟩
-    · rintro ⟨h1, h2, h3⟩
-      refine ⟨h1, (c - minLen).toNat, by omega, ?_⟩
-      rw [nat_cast, nat_cast]; omega
+        ∀ mx, maxLen = some mx → (countIn (count.getD syms) w : Int) ≤ mx) :=
+  C15_of_length_general syms minLen maxLen count (Or.inl hmin)
 
-/-- Minimality of `of_length` for non-degenerate parameters (`0 ≤ min`, `min ≤ max` when a
-maximum is given, some counted symbol belongs to the alphabet): all states reachable and
-pairwise distinguishable, hence no equivalent complete DFA is smaller. -/
-theorem C15_of_length_minimal (syms : List α) (minLen : Int) (hmin : 0 ≤ minLen) (maxLen : Option Int)
-    (count : Option (List α)) (hmax : ∀ mx, maxLen = some mx → minLen ≤ mx)
-    (c : α) (hc : c ∈ syms) (hcc : c ∈ count.getD syms) :
+/-- `of_length` without a maximum: every `min_length`, negative ones included (the language is
+then `Σ*`). -/
+theorem C15_of_length_unbounded (syms : List α) (minLen : Int) (count : Option (List α)) :
+    Builds (ofLength syms minLen none count) syms
+      (fun w => minLen ≤ countIn (count.getD syms) w) := by
+  obtain ⟨d, h1, h2, h3, h4⟩ := C15_of_length_general syms minLen none count (Or.inr (Or.inl rfl))
+  exact ⟨d, h1, h2, h3, fun w => by rw [h4]; simp⟩
+
+/-- The error outcome of `of_length`: a negative `min_length` with a non-negative `max_length`
+and some counted symbol in the alphabet makes `final_states = range(min_length, max_length + 1)`
+contain negative numbers, which are not states — the constructor raises `InvalidStateError`
+(no DFA, in particular no wrong DFA, is returned).  Together with `C15_of_length_general` this
+covers every input. -/
+theorem C15_of_length_negative_min (syms : List α) (minLen : Int) (hmin : minLen < 0) (mx : Int)
+    (hmx : 0 ≤ mx) (count : Option (List α)) (c : α) (hc : c ∈ syms) (hcc : c ∈ count.getD syms) :
+    ofLength syms minLen (some mx) count = .error (.lib .invalidStateError) := by
+  have hdis : isDisjoint syms (count.getD syms) = false :=
+    (isDisjoint_eq_false_iff syms _).mpr ⟨c, hc, hcc⟩
+  have hemp : emptyRange minLen (some mx) = false := by
+    rw [← Bool.not_eq_true, emptyRange_iff]
+    rintro ⟨m, hm, h⟩
+    cases hm; omega
+  rw [ofLength_eq syms minLen (some mx) count hdis hemp]
+  exact ofLengthDFA_negative_min syms _ minLen hmin mx hmx
+
+/-- Minimality of `of_length` for **all** parameters (since the repair bcfb456 the degenerate
+ones — empty range, nothing counted — return the one-state automaton): whenever a DFA is
+returned it is complete with all states reachable and pairwise distinguishable, hence no
+equivalent complete DFA is smaller. -/
+theorem C15_of_length_minimal (syms : List α) (minLen : Int) (maxLen : Option Int)
+    (count : Option (List α)) :
     ∀ d, ofLength syms minLen maxLen count = .ok d →
       d.allowPartial = false ∧ MinimalShape d ∧ MinimalAmongComplete d := by
   intro d hd
-  cases maxLen with
-  | none =>
-    have hwf := wf_of_build (ofLength_eq syms minLen none count) hd
-    rw [eq_of_build (ofLength_eq syms minLen none count) hd]
-    have h : MinimalShape (ofLengthDFA syms minLen.toNat (count.getD syms) [nat minLen.toNat]) := by
-      apply ofLengthDFA_minimal syms _ _ _ c hc hcc
-      intro i j hij hj
-      refine ⟨minLen.toNat - j, ?_⟩
-      simp only [List.mem_singleton, nat_inj]
-      have h1 : ¬ min minLen.toNat (i + (minLen.toNat - j)) = minLen.toNat := by omega
-      have h2 : min minLen.toNat (j + (minLen.toNat - j)) = minLen.toNat := by omega
-      simp [h1, h2]
-    exact ⟨rfl, h, C15_minimal_of_shape _ hwf h⟩
-  | some mx =>
-    have hm := hmax mx rfl
-    have hwf := wf_of_build (ofLength_eq syms minLen (some mx) count) hd
-    rw [eq_of_build (ofLength_eq syms minLen (some mx) count) hd]
-    have h : MinimalShape (ofLengthDFA syms (mx + 1).toNat (count.getD syms)
-        ((List.range (mx + 1 - minLen).toNat).map fun j => minLen + nat j)) := by
-      apply ofLengthDFA_minimal syms _ _ _ c hc hcc
-      intro i j hij hj
-      refine ⟨mx.toNat - i, ?_⟩
-      have h1 : nat (min (mx + 1).toNat (i + (mx.toNat - i))) ∈
-          (List.range (mx + 1 - minLen).toNat).map (fun j => minLen + nat j) := by
-        simp only [List.mem_map, List.mem_range]
-        refine ⟨(mx - minLen).toNat, by omega, ?_⟩
-        rw [nat_cast, nat_cast]; omega
-      have h2 : ¬ nat (min (mx + 1).toNat (j + (mx.toNat - i))) ∈
-          (List.range (mx + 1 - minLen).toNat).map (fun j => minLen + nat j) := by
-        simp only [List.mem_map, List.mem_range, not_exists, not_and]
-        intro x hx e
-        rw [nat_cast, nat_cast] at e
-        omega
-      simp [h1, h2]
-    exact ⟨rfl, h, C15_minimal_of_shape _ hwf h⟩
+  cases hdis : isDisjoint syms (count.getD syms) with
+  | true =>
+    have e := ofLength_eq_disjoint syms minLen maxLen count hdis
+    have hwf := wf_of_build e hd
+    rw [eq_of_build e hd]
+    exact ⟨by cases zeroInRange minLen maxLen <;> rfl, loopDFA_minimal 0 syms _,
+      C15_minimal_of_shape _ hwf (loopDFA_minimal 0 syms _)⟩
+  | false =>
+    cases hemp : emptyRange minLen maxLen with
+    | true =>
+      have e := ofLength_eq_emptyRange syms minLen maxLen count hdis hemp
+      have hwf := wf_of_build e hd
+      rw [eq_of_build e hd]
+      exact ⟨rfl, loopDFA_minimal 0 syms false, C15_minimal_of_shape _ hwf (loopDFA_minimal 0 syms false)⟩
+    | false =>
+      have hne : ¬ ∃ mx, maxLen = some mx ∧ (mx < minLen ∨ mx < 0) := by
+        rw [← emptyRange_iff, hemp]; simp
+      obtain ⟨c, hc, hcc⟩ := (isDisjoint_eq_false_iff syms _).mp hdis
+      cases maxLen with
+      | none =>
+        have hwf := wf_of_build (ofLength_eq syms minLen none count hdis hemp) hd
+        rw [eq_of_build (ofLength_eq syms minLen none count hdis hemp) hd]
+        have h : MinimalShape (ofLengthDFA syms minLen.toNat (count.getD syms) [nat minLen.toNat]) := by
+          apply ofLengthDFA_minimal syms _ _ _ c hc hcc
+          intro i j hij hj
+          refine ⟨minLen.toNat - j, ?_⟩
+          simp only [List.mem_singleton, nat_inj]
+          have h1 : ¬ min minLen.toNat (i + (minLen.toNat - j)) = minLen.toNat := by omega
+          have h2 : min minLen.toNat (j + (minLen.toNat - j)) = minLen.toNat := by omega
+          simp [h1, h2]
+        exact ⟨rfl, h, C15_minimal_of_shape _ hwf h⟩
+      | some mx =>
+        have hm : minLen ≤ mx := Int.not_lt.mp fun hlt => hne ⟨mx, rfl, Or.inl hlt⟩
+        have hm0 : 0 ≤ mx := Int.not_lt.mp fun hlt => hne ⟨mx, rfl, Or.inr hlt⟩
+        have hwf := wf_of_build (ofLength_eq syms minLen (some mx) count hdis hemp) hd
+        rw [eq_of_build (ofLength_eq syms minLen (some mx) count hdis hemp) hd]
+        have h : MinimalShape (ofLengthDFA syms (mx + 1).toNat (count.getD syms)
+            ((List.range (mx + 1 - minLen).toNat).map fun j => minLen + nat j)) := by
+          apply ofLengthDFA_minimal syms _ _ _ c hc hcc
+          intro i j hij hj
+          refine ⟨mx.toNat - i, ?_⟩
+          have h1 : nat (min (mx + 1).toNat (i + (mx.toNat - i))) ∈
+              (List.range (mx + 1 - minLen).toNat).map (fun j => minLen + nat j) := by
+            simp only [List.mem_map, List.mem_range]
+            refine ⟨(mx - minLen).toNat, by omega, ?_⟩
+            rw [nat_cast, nat_cast]; omega
+          have h2 : ¬ nat (min (mx + 1).toNat (j + (mx.toNat - i))) ∈
+              (List.range (mx + 1 - minLen).toNat).map (fun j => minLen + nat j) := by
+            simp only [List.mem_map, List.mem_range, not_exists, not_and]
+            intro x hx e
+            rw [nat_cast, nat_cast] at e
+            omega
+          simp [h1, h2]
+        exact ⟨rfl, h, C15_minimal_of_shape _ hwf h⟩
+
+/-- The number of states `of_length` returns: one for the two early returns, otherwise one per
+counter value `0 … min` resp. `0 … max + 1`. -/
+theorem C15_of_length_size (syms : List α) (minLen : Int) (maxLen : Option Int)
+    (count : Option (List α)) :
+    ∀ d, ofLength syms minLen maxLen count = .ok d →
+      d.states.length =
+        if isDisjoint syms (count.getD syms) || emptyRange minLen maxLen then 1
+        else match maxLen with
+          | none => minLen.toNat + 1
+          | some mx => (mx + 1).toNat + 1 := by
+  intro d hd
+  have hlen : ∀ n cnt, (akeys (ofLengthTable syms n cnt)).length = n + 1 := by
+    intro n cnt
+    unfold ofLengthTable
+    rw [akeys, List.length_map, length_ainsert_new]
+    · simp
+    · rw [akeys_rangeMap]
+      simp only [List.mem_map, List.mem_range, not_exists, not_and, nat_inj]
+      intro x hx e; omega
+  cases hdis : isDisjoint syms (count.getD syms) with
+  | true =>
+    rw [eq_of_build (ofLength_eq_disjoint syms minLen maxLen count hdis) hd]
+    simp [loopDFA]
+  | false =>
+    cases hemp : emptyRange minLen maxLen with
+    | true =>
+      rw [eq_of_build (ofLength_eq_emptyRange syms minLen maxLen count hdis hemp) hd]
+      simp [loopDFA]
+    | false =>
+      rw [eq_of_build (ofLength_eq syms minLen maxLen count hdis hemp) hd]
+      cases maxLen <;> simp [ofLengthDFA, hlen]
 
 example : Builds (ofLength ['a', 'b'] 1 (some 2) (some ['a'])) ['a', 'b']
     (fun w => (1 : Int) ≤ countIn ['a'] w ∧ ∀ mx, some (2 : Int) = some mx → (countIn ['a'] w : Int) ≤ mx) :=
   C15_of_length _ 1 (by decide) _ _
+
+example : ofLength ['a', 'b'] (-2) (some 1) (some ['b']) = .error (.lib .invalidStateError) :=
+  C15_of_length_negative_min _ _ (by decide) _ (by decide) _ 'b' (by decide) (by decide)
 
 /-! ## nth_from_start, nth_from_end -/
 
@@ -256,7 +385,7 @@ theorem C15_nth_from_start (syms : List α) (s : α) (n : Int) (hn : 1 ≤ n) (h
       intro r hr
       simp only [List.mem_singleton] at hr
       rw [hr, nat_cast]; omega
-    refine builds_of syms ((nthFromStart_eq_single syms s n hn hs hlen).trans (ofLength_eq syms n none none))
+    refine builds_of syms ((nthFromStart_eq_single syms s n hn hs hlen).trans (ofLength_eq_all syms n (by rintro rfl; cases hs)))
       (ofLengthDFA_wf syms _ _ _ hfin) rfl (fun w => ?_)
     rw [ofLengthDFA_accepts syms _ _ _ hfin]
     simp only [List.mem_singleton, nat_inj, Option.getD_none]
@@ -296,7 +425,7 @@ theorem C15_nth_from_end (syms : List α) (s : α) (n : Int) (hn : 1 ≤ n) (hs 
       intro r hr
       simp only [List.mem_singleton] at hr
       rw [hr, nat_cast]; omega
-    refine builds_of syms ((nthFromEnd_eq_single syms s n hn hs hlen).trans (ofLength_eq syms n none none))
+    refine builds_of syms ((nthFromEnd_eq_single syms s n hn hs hlen).trans (ofLength_eq_all syms n (by rintro rfl; cases hs)))
       (ofLengthDFA_wf syms _ _ _ hfin) rfl (fun w => ?_)
     rw [ofLengthDFA_accepts syms _ _ _ hfin]
     simp only [List.mem_singleton, nat_inj, Option.getD_none]
@@ -574,6 +703,26 @@ def size (r : Res (DFA σ α)) : Option Nat :=
   match r with
   | .ok d => some d.states.length
   | .error _ => none
+
+/-- The exception raised by a constructor call, if any. -/
+def raised (r : Res (DFA σ α)) : Option Exn :=
+  match r with
+  | .ok _ => none
+  | .error e => some e
+
+/-- Regression witnesses of the repaired finding F15 (fix bcfb456), evaluated on the model:
+`of_length({'a'}, 3, 1)` and `of_length({'a','b'}, 2, 3, symbols_to_count={'c'})` have one state
+and reject everything (before the repair: 3 resp. 5 states); a non-degenerate call keeps its
+ladder; a negative minimum with a maximum raises `InvalidStateError`. -/
+theorem C15_of_length_regressions :
+    size (ofLength ['a'] 3 (some 1) none) = some 1 ∧
+    verdict (ofLength ['a'] 3 (some 1) none) ['a', 'a'] = some false ∧
+    size (ofLength ['a', 'b'] 2 (some 3) (some ['c'])) = some 1 ∧
+    verdict (ofLength ['a', 'b'] 2 (some 3) (some ['c'])) ['a', 'b'] = some false ∧
+    size (ofLength ['a', 'b'] 0 (some 3) (some ['c'])) = some 1 ∧
+    verdict (ofLength ['a', 'b'] 0 (some 3) (some ['c'])) ['a', 'b'] = some true ∧
+    size (ofLength ['a', 'b'] 1 (some 3) (some ['a', 'c'])) = some 5 ∧
+    raised (ofLength ['a'] (-1) (some 1) none) = some (.lib .invalidStateError) := by decide
 
 /-- `from_substrings(Σ, S, contains, must_be_suffix)` (Aho–Corasick) for every duplicate-free
 alphabet, every list of patterns over it — in **every** insertion order, with patterns that are
